@@ -2,5 +2,5 @@ SPECIFICATION Spec
 CONSTANTS
   B = 4
   N = 2
-INVARIANTS Arith Logic Shifts Division DivisionUnique Exponent
+INVARIANTS Arith Logic Shifts Division DivisionUnique Exponent Ternary
 CHECK_DEADLOCK FALSE
